@@ -371,9 +371,21 @@ def moment_validate(ctx, events, pinned):
         ctx.violation("conformance:moment-no-variant", "moment sessions are not those of any variant of the machine",
                       dict(sample=[dict(ses=byid[i]["ses"], obs=byid[i]["obs"]) for i in conf if not any(conf[i].values())][:3]))
     if okv and (True, True) not in okv:
-        ctx.violation("tlc:MomentApi:" + "+".join(ctx.extra["moment_api_machine_without_guards_violates"]),
-                      "TLC: the variant of the run_moment machine this tree conforms to violates the requirement",
-                      dict(variants=[dict(projRaise=a, symGuard=b) for a, b in okv]))
+        # model-check the variant this tree implements; the two sites are independent
+        a, b = okv[0]
+        mc, cfg = mc_api("{[projRaise |-> %s, symGuard |-> %s]}" % ("TRUE" if a else "FALSE", "TRUE" if b else "FALSE"), False)
+        res = ctx.tlc("MC_MomentApi", cfg_text=cfg, extra_files={"MC_MomentApi.tla": mc}, requirement=False, workers=2,
+                      extra_args=("-continue",))
+        for name in sorted(set(n for n, _ in res.violations)):
+            tr = [t for n, t in res.violations if n == name][0]
+            st = tr[-1][1] if tr else {}
+            detail = dict(variant=dict(projRaise=a, symGuard=b), invariant=name, session=unfreeze(st.get("ses")), reported=unfreeze(st.get("obs")))
+            if name == "InvProjectedDefined":
+                # a projected moment is reported for a symmetry-reduced mesh (X03-D3): same class as the Impl verdict
+                ctx.violation("moment:projected-on-symmetry-reduced-mesh",
+                              "TLC: run_moment computes projected moments on a symmetry-reduced mesh (MomentApi.tla, InvProjectedDefined)", detail)
+            else:
+                ctx.violation("tlc:MomentApi:" + name, "TLC: the variant of the run_moment machine this tree conforms to violates " + name, detail)
     ctx.sample(dict(moment_session=events[len(events) // 3]))
 
 
